@@ -175,7 +175,7 @@ def main_c03(tier, seed):
     for i in range(N):
         semi = (i % 5 == 4)
         insts.append((semi, gen_instance(rng, nmax=9 if tier == "quick" else 14, nu=rng.randint(0, 4) if semi else 0, m=rng.randint(1, 6),
-                                         kinds=("feat", "mat", "lattice", "feat", "mat", "lattice", "tiny", "sparse", "asym", "asym", "literal", "gridcut", "zeroarcs", "nondiss", "nondiss"))))
+                                         kinds=("feat", "mat", "lattice", "feat", "mat", "lattice", "tiny", "sparse", "asym", "asym", "literal", "gridcut", "zeroarcs", "nondiss", "nondiss", "tiny", "tiny", "bootstrap"))))
     terms, expect, recs = [], [], []
     prev = {}
     for ci, (semi, it) in enumerate(insts):
@@ -237,7 +237,7 @@ def main_c15(tier, seed):
     standard_proof_phase(rep, "C15", MODEL_FILES + ["Props/C15"])
     rng = random.Random(seed + 15)
     N = 250 if tier == "quick" else 20000
-    C15_KINDS = ("feat", "mat", "lattice", "feat", "mat", "lattice", "tiny", "sparse", "literal", "gridcut", "zeroarcs", "asym", "asym")
+    C15_KINDS = ("feat", "mat", "lattice", "feat", "mat", "lattice", "tiny", "sparse", "literal", "gridcut", "zeroarcs", "asym", "asym", "bootstrap")
     insts = [gen_instance(rng, nmax=8 if tier == "quick" else 12, nu=rng.choice([0, 0, 1, 2, 3, 5]), kinds=C15_KINDS) if i % 8 else gen_mixed_dtype_instance(rng)
              for i in range(N)]
     terms, expect, sts = [], [], []
